@@ -89,6 +89,14 @@ Theorem C05_evicted_drains_then_closes :
 Proof. exact evicted_drains_then_closes. Qed.
 Print Assumptions C05_evicted_drains_then_closes.
 
+(* configuration: whatever BufferSize a relay is given, its connections get a capacity in 1..512: the configured one when legal, otherwise 256 *)
+Theorem C05_effective_cap :
+  forall z, 1 <= effective_cap z <= 512 /\
+            ((1 <= z <= 512)%Z -> effective_cap z = Z.to_nat z) /\
+            ((z < 1 \/ 512 < z)%Z -> effective_cap z = 256).
+Proof. exact (fun z => conj (effective_cap_legal z) (conj (effective_cap_in_range z) (effective_cap_fallback z))). Qed.
+Print Assumptions C05_effective_cap.
+
 (* non-vacuity: writer 1, slow reader 2 with capacity 1 and reader 3 with capacity 2 on one topic.
    The second message finds reader 2's queue full: it is dropped (Evicted), still drains the one
    message it holds, then closes; reader 3 writes both messages merged into one frame. *)
